@@ -193,6 +193,9 @@ pub struct Limits {
     pub alloc_hard: usize,
     pub alloc_soft: usize,
     pub stack: usize,
+    /// allocation oracle proportional to the input: peak > max(alloc_floor, alloc_ratio * input length) is a failure
+    pub alloc_ratio: usize,
+    pub alloc_floor: usize,
 }
 impl Limits {
     pub fn from_env() -> Limits {
@@ -202,6 +205,8 @@ impl Limits {
             alloc_hard: g("VERIF_ROBUST_ALLOC_HARD", 2 << 30) as usize,
             alloc_soft: g("VERIF_ROBUST_ALLOC_SOFT", 512 << 20) as usize,
             stack: g("VERIF_ROBUST_STACK", 2 << 20) as usize,
+            alloc_ratio: g("VERIF_ROBUST_ALLOC_RATIO", 4096) as usize,
+            alloc_floor: g("VERIF_ROBUST_ALLOC_FLOOR", 1 << 20) as usize,
         }
     }
 }
@@ -261,6 +266,18 @@ pub fn exec_case(w: &Arc<ep::RWorld>, class: &'static ep::Class, input: &gen::In
             let ms = t0.elapsed().as_millis() as u64;
             if !kind.is_failure() && peak > lim.alloc_soft + 256 * input.len() {
                 return Outcome { kind: Kind::Alloc, loc: "soft-ceiling".into(), msg: format!("peak {} bytes", peak), ms, peak };
+            }
+            // allocation PROPORTIONAL to the input: a few bytes of input must not make the library
+            // ask for hundreds of megabytes, even if the absolute ceilings are not reached
+            let allowed = lim.alloc_floor.max(lim.alloc_ratio.saturating_mul(input.len()));
+            if !kind.is_failure() && peak > allowed {
+                return Outcome {
+                    kind: Kind::Alloc,
+                    loc: "disproportionate".into(),
+                    msg: format!("peak {} bytes for an input of {} bytes (ratio {}, allowed max({}, {} x input))", peak, input.len(), peak / input.len().max(1), lim.alloc_floor, lim.alloc_ratio),
+                    ms,
+                    peak,
+                };
             }
             Outcome { kind, loc, msg, ms, peak }
         }
@@ -471,6 +488,7 @@ struct ClassStats {
     labels: BTreeMap<String, u64>,
     tags: BTreeMap<String, u64>,
     max_peak: usize,
+    max_ratio: usize,
     max_ms: u64,
     samples: Vec<String>,
     fails: BTreeMap<(String, String), (u64, u64, String, Outcome)>, // (kind, loc) -> (count, first idx, label, outcome)
@@ -548,6 +566,7 @@ fn supervise(args: &[String]) {
                         labels: BTreeMap::new(),
                         tags: BTreeMap::new(),
                         max_peak: 0,
+                        max_ratio: 0,
                         max_ms: 0,
                         samples: Vec::new(),
                         fails: BTreeMap::new(),
@@ -560,6 +579,9 @@ fn supervise(args: &[String]) {
                             *s.tags.entry(format!("{}:{}", o.kind.name(), o.loc)).or_insert(0) += 1;
                         }
                         s.max_peak = s.max_peak.max(o.peak);
+                        if o.peak > (1 << 20) && !o.kind.is_failure() {
+                            s.max_ratio = s.max_ratio.max(o.peak / (*len).max(1));
+                        }
                         s.max_ms = s.max_ms.max(o.ms);
                         if s.samples.len() < 6 && (*idx % 7 == 3 || *idx < 2) {
                             s.samples.push(format!("{} {} {} len={} {}", idx, label, o.kind.name(), len, o.loc));
@@ -612,13 +634,14 @@ fn supervise(args: &[String]) {
         tags.sort_by(|a, b| b.1.cmp(a.1).then(a.0.cmp(b.0)));
         let tags: Vec<String> = tags.iter().take(12).map(|(k, v)| format!("{}:{}", k, v)).collect();
         println!(
-            "CLASS {} entry={} cases={} {} maxpeak={} maxms={} labels={} tags={}",
+            "CLASS {} entry={} cases={} {} maxpeak={} maxms={} maxratio={} labels={} tags={}",
             c.name,
             hexs(c.entry),
             s.cases,
             kinds.join(" "),
             s.max_peak,
             s.max_ms,
+            s.max_ratio,
             labels.join(","),
             hexs(&tags.join(","))
         );
